@@ -298,6 +298,7 @@ func vPace(f []string) (res string) {
 		return v
 	}
 	mi := nextI()
+	gm := vGraceMult()
 	nc := fixtureCoordinator()
 	nc.Configure()
 	nc.minInterval = mi
@@ -333,7 +334,7 @@ func vPace(f []string) (res string) {
 		// quiesce: wait until nothing has arrived for a few loop iterations
 		last := -1
 		for k := 0; k < 200; k++ {
-			time.Sleep(6 * time.Millisecond)
+			time.Sleep(6 * time.Millisecond * gm)
 			mu.Lock()
 			n := len(got)
 			mu.Unlock()
@@ -368,7 +369,7 @@ func vPace(f []string) (res string) {
 				nc.running.Add(1)
 				go nc.sendEvaluatorRequests()
 			}
-			time.Sleep(8 * time.Millisecond) // several 1 ms iterations at this clock value
+			time.Sleep(8 * time.Millisecond * gm) // several 1 ms iterations at this clock value
 			gs := take()
 			ids := make([]int, 0, len(gs))
 			bad := false
@@ -1007,7 +1008,12 @@ func vCfg(f []string, sink func(string)) (res string) {
 				bServed := stServed.Load()
 				if mode == "c" {
 					stallAll.Store(1)
+					time.Sleep(3 * time.Millisecond) // the responder may be inside its 0.5 ms receive window
+					t0 := time.Now()
 					nc.sendClusterRequest() // returns when the 1 s timeout has passed
+					if time.Since(t0) < 900*time.Millisecond {
+						put("STALLFAILED")
+					}
 					time.Sleep(50 * time.Millisecond)
 					stallAll.Store(0)
 				} else {
